@@ -263,10 +263,11 @@ func short(s string, n int) string {
 var stringPool = []string{
 	"", "a", "b", "key", "value", "x y", "with \"quote\"", "back\\slash", "tab\tnl\n", "\x00\x1f",
 	"é", "日本", "😀", "}", "]", "[{", ",", ":", "null", "12", "a.b", "a#1", " ", "true",
+	"\\", "ends with backslash\\", "q\"\\", "\\\\", "}]", "\"]",
 }
 
 var keyPool = []string{
-	"", "a", "b", "c", "d", "k1", "k2", "key", "with \"quote\"", "a.b", "x#1", "é", "日本", "😀", "}", "{", "back\\slash", "nl\n",
+	"", "a", "b", "c", "d", "k1", "k2", "key", "with \"quote\"", "a.b", "x#1", "é", "日本", "😀", "}", "{", "back\\slash", "nl\n", "k\\", "]",
 }
 
 // plainKeyPool holds keys usable as tree-form path segments.
